@@ -58,6 +58,10 @@ func subjects(r *hx.Rand, thorough bool) []subject {
 	for _, n := range []int{1, 64, 2000} {
 		out = append(out, mkSocSubject(r, n))
 	}
+	for _, sp := range emptySpans[1:] {
+		a, p := cacOf(sp, nil)
+		out = append(out, subject{addr: a, payload: p, kind: "cac"})
+	}
 	if thorough {
 		for i := 0; i < 12; i++ {
 			out = append(out, mkCacSubject(r, 1+r.Intn(20000)))
@@ -65,6 +69,52 @@ func subjects(r *hx.Rand, thorough bool) []subject {
 		}
 	}
 	return out
+}
+
+// ---------------------------------------------------------------- boundary: empty and one-byte payloads
+
+var emptySpans = []uint64{0, 1, 4096, 1 << 32, 1 << 63}
+
+// emptyReply: span s followed by no data, one zero byte (same BMT root as no data: zero padding)
+// or one non-zero byte.
+func emptyReply(r *hx.Rand, s uint64) reply {
+	p := le64(s)
+	switch r.Intn(4) {
+	case 0:
+		p = append(p, 0)
+	case 1:
+		p = append(p, byte(1+r.Intn(255)))
+	}
+	return reply{Kind: "delivery", Data: FromBytes(p)}
+}
+
+// genEmpty: a request for the address of the empty chunk with span s, answered with empty /
+// one-byte payloads under assorted spans (the genuine one among them). A validator that does not
+// bind the span for an empty payload accepts a reply that is not the requested chunk.
+func genEmpty(r *hx.Rand) jcase {
+	s := emptySpans[r.Intn(len(emptySpans))]
+	addr, _ := cacOf(s, nil)
+	n := 1 + r.Intn(3)
+	jc := jcase{Kind: "retr", Addr: hx.Hex(addr), Root: hx.Hex(r.Bytes(32)), NRoutes: n, Note: fmt.Sprintf("empty-chunk span=%d", s)}
+	if r.Chance(1, 5) {
+		e := okEnv()
+		e.Reply = emptyReply(r, emptySpans[r.Intn(len(emptySpans))])
+		return jcase{Kind: "relay", Addr: jc.Addr, Root: jc.Root, Note: jc.Note, Pass1: []attemptEnv{e}}
+	}
+	for i := 0; i < 2*n; i++ {
+		e := okEnv()
+		sp := emptySpans[r.Intn(len(emptySpans))]
+		if r.Chance(1, 4) {
+			sp = s
+		}
+		e.Reply = emptyReply(r, sp)
+		if i < n {
+			jc.Pass1 = append(jc.Pass1, e)
+		} else {
+			jc.Pass2 = append(jc.Pass2, e)
+		}
+	}
+	return jc
 }
 
 func okEnv() attemptEnv {
@@ -301,7 +351,14 @@ func mutate(r *hx.Rand, h *honest, all []subject) pyrMut {
 		}
 		m.entries = append(m.entries[:i:i], m.entries[i+1:]...)
 		m.walk, m.seen, m.note = "err", nil, "missing-entry"
-	case 12: // an entry shorter than a span
+	case 12: // an entry shorter than a span / an empty payload whose span is not the key's
+		if r.Bool() {
+			sk, sd := emptySpans[r.Intn(len(emptySpans))], emptySpans[r.Intn(len(emptySpans))]
+			ka, _ := cacOf(sk, nil)
+			m.entries = append(m.entries, pyrEntry{Key: hx.Hex(ka), Data: FromBytes(le64(sd))})
+			m.note = "empty-payload-entry"
+			break
+		}
 		m.entries = append(m.entries, pyrEntry{Key: hx.Hex(r.Bytes(32)), Data: FromBytes(r.Bytes(r.Intn(8)))})
 		m.note = "short-entry"
 	case 13: // a key that is not hex / a key of another length
@@ -434,6 +491,18 @@ func corpus(r *hx.Rand, pool []*honest, all []subject) []jcase {
 	e3 := okEnv()
 	e3.Reply = reply{Kind: "delivery", Data: FromBytes(so.payload)}
 	out = append(out, jcase{Kind: "retr", Addr: hx.Hex(so.addr), Root: hx.Hex(r.Bytes(32)), NRoutes: 1, Pass1: []attemptEnv{e3}, Pass2: []attemptEnv{e3}, Note: "honest soc"})
+	// empty payload under another span than the requested empty chunk's (seeded change C06-3), then the genuine one
+	ea0, ep0 := cacOf(0, nil)
+	eb, ee := okEnv(), okEnv()
+	eb.Reply = reply{Kind: "delivery", Data: FromBytes(le64(1))}
+	ee.Reply = reply{Kind: "delivery", Data: FromBytes(ep0)}
+	out = append(out, jcase{Kind: "retr", Addr: hx.Hex(ea0), Root: hx.Hex(r.Bytes(32)), NRoutes: 2, Pass1: []attemptEnv{eb, ee}, Pass2: []attemptEnv{eb, eb}, Note: "empty chunk: span 1 for the span-0 address, then genuine"})
+	ea1, _ := cacOf(4096, nil)
+	ez := okEnv()
+	ez.Reply = reply{Kind: "delivery", Data: FromBytes(le64(0))}
+	out = append(out, jcase{Kind: "retr", Addr: hx.Hex(ea1), Root: hx.Hex(r.Bytes(32)), NRoutes: 1, Pass1: []attemptEnv{ez}, Pass2: []attemptEnv{ez}, Note: "empty chunk: span 0 for the span-4096 address"})
+	out = append(out, jcase{Kind: "pyr", Root: hx.Hex(ea0), FailAt: -1, Walk: "observe", Note: "pyramid: empty payload, span 2^32 under the span-0 empty chunk's key",
+		Entries: []pyrEntry{{Key: hx.Hex(ea0), Data: FromBytes(le64(1 << 32))}}})
 	// relay of an invalid and of a valid delivery
 	out = append(out, jcase{Kind: "relay", Addr: hx.Hex(s.addr), Root: hx.Hex(r.Bytes(32)), Pass1: []attemptEnv{e1}, Note: "relay oversize"})
 	out = append(out, jcase{Kind: "relay", Addr: hx.Hex(s.addr), Root: hx.Hex(r.Bytes(32)), Pass1: []attemptEnv{e2}, Note: "relay honest"})
